@@ -52,15 +52,44 @@ func (g *Gen) Base() {
 	g.next(6)
 	g.next(6)
 	g.bidAll()
-	// price moves: vault collateral A2 2.0 -> 1.0 (vaults 1 and 3 unsafe), lend collateral A1 2.0 -> 1.8
+	// price move 1: vault collateral A2 2.0 -> 1.0 (vaults 4 and 5 become unsafe; the sweep of the next block seizes them)
 	g.step(cfgStep("env.price", priceArg{Asset: A2, Twa: 1000000, Active: true}))
-	g.step(cfgStep("env.price", priceArg{Asset: A1, Twa: 1800000, Active: true}))
+	for p := int64(1); p <= 24; p += 2 { // limit bids on many discount levels: some are hit while the Dutch price falls
+		g.msg("aucv2.limitbid", auctionsv2types.NewMsgDepositLimitBid(U(Users[p%4]).String(), A2, A3, i(p), coin("uasset3", 150_000+p*1000)))
+	}
 	g.next(6)
-	g.msg("liqv2.internal", liqv2types.NewMsgLiquidateInternalKeeperRequest(U("u6"), 0, 6))
+	g.msg("liqv2.internal", liqV2Internal(U("u6"), 6))
+	g.bidAll()
+	for k := 0; k < 6; k++ {
+		g.next(290)
+		if k%2 == 1 {
+			g.bidAll()
+		}
+	}
+	// price move 2: lend collateral A1 2.0 -> 0.9 (borrows against cAsset1 become unsafe)
+	g.step(cfgStep("env.price", priceArg{Asset: A1, Twa: 900000, Active: true}))
+	g.next(6)
 	g.next(6)
 	g.bidAll()
-	g.next(1200)
+	for k := 0; k < 3; k++ {
+		g.next(290)
+		g.bidAll()
+	}
+	g.next(4000) // English auction end, Dutch restart
 	g.bidAll()
+	g.trade(1)
+	g.next(6)
+}
+
+// PadTo runs empty blocks up to the given height (liquidity converts accumulated swap fees at heights divisible
+// by 150), then trades once more.
+func (g *Gen) PadTo(h int64) {
+	for g.C.Height < h {
+		g.next(6)
+	}
+	g.trade(1)
+	g.trade(2)
+	g.next(6)
 	g.next(6)
 }
 
@@ -146,6 +175,7 @@ func (g *Gen) harborOpen() {
 	g.msg("tokenmint.mint", tokenminttypes.NewMsgMintNewTokensRequest(U("u6").String(), AppHarbor, AHARBOR))
 	// vaults: u1/u3 tight (liquidatable after a price drop), u2 roomy
 	g.msg("vault.create", vaulttypes.NewMsgCreateRequest(U("u2"), AppHarbor, 1, i(10_000_000), i(2_000_000)))
+	g.msg("rewards.extvault", rewardstypes.NewMsgActivateExternalRewardsVault(AppHarbor, 1, coin("weth", 7_000_001), 4, 1, U("u6")))
 	g.msg("vault.create", vaulttypes.NewMsgCreateRequest(U("u2"), AppHarbor, 2, i(5_000_000), i(3_000_000)))
 	g.msg("vault.create", vaulttypes.NewMsgCreateRequest(U("u4"), AppHarbor, 2, i(3_000_000), i(1_000_000)))
 	g.msg("vault.create", vaulttypes.NewMsgCreateRequest(U("u1"), AppHarbor, 1, i(1_000_000), i(1_000_000)))
@@ -167,6 +197,8 @@ func (g *Gen) harborOpen() {
 	g.msg("aucv2.limitbid", auctionsv2types.NewMsgDepositLimitBid(U("u5").String(), A2, A3, i(9), coin("uasset3", 7_000_000)))
 	g.msg("aucv2.limitbid", auctionsv2types.NewMsgDepositLimitBid(U("u4").String(), A2, A3, i(5), coin("uasset3", 2_000_000)))
 	g.msg("aucv2.limitwithdraw", auctionsv2types.NewMsgWithdrawLimitBid(U("u4").String(), A2, A3, i(5), coin("uasset3", 500_000)))
+	// external reward programs (x/rewards/keeper/iter.go walks all lockers / vaults once per day)
+	g.msg("rewards.extlocker", rewardstypes.NewMsgActivateExternalRewardsLockers(AppHarbor, A3, coin("weth", 10_000_003), 5, 1, U("u6")))
 	// esm deposit (no execution)
 	g.msg("esm.deposit", esmtypes.NewMsgDeposit(U("u6").String(), AppHarbor, coin("uharbor", 1_000_000)))
 }
@@ -200,6 +232,8 @@ func (g *Gen) swapOpen() {
 	g.msg("liquidity.createpool", liquiditytypes.NewMsgCreatePool(AppSwap, U("u1"), 1, sdk.NewCoins(coin("uasset1", 1_000_000_000), coin("uasset2", 1_000_000_000))))
 	g.msg("liquidity.createranged", liquiditytypes.NewMsgCreateRangedPool(AppSwap, U("u2"), 1, sdk.NewCoins(coin("uasset1", 500_000_000), coin("uasset2", 500_000_000)), d("0.9"), d("1.1"), d("1.0")))
 	g.msg("liquidity.createpool", liquiditytypes.NewMsgCreatePool(AppSwap, U("u2"), 2, sdk.NewCoins(coin("ucmdx", 2_000_000_000), coin("uasset3", 2_000_000_000))))
+	g.msg("liquidity.createpair", liquiditytypes.NewMsgCreatePair(AppSwap, U("u3"), "uasset2", "ucmdx"))
+	g.msg("liquidity.createpool", liquiditytypes.NewMsgCreatePool(AppSwap, U("u3"), 3, sdk.NewCoins(coin("uasset2", 1_500_000_000), coin("ucmdx", 3_000_000_000))))
 	for k, u := range []string{"u3", "u4", "u5", "u6"} {
 		g.msg("liquidity.deposit", liquiditytypes.NewMsgDeposit(AppSwap, U(u), 1, sdk.NewCoins(coin("uasset1", int64(100_000_007*(k+1))), coin("uasset2", int64(100_000_007*(k+1))))))
 		g.msg("liquidity.deposit", liquiditytypes.NewMsgDeposit(AppSwap, U(u), 2, sdk.NewCoins(coin("uasset1", int64(33_000_001*(k+1))), coin("uasset2", int64(33_000_001*(k+1))))))
@@ -216,9 +250,6 @@ func (g *Gen) swapOpen() {
 	mk("u1", 2, false, []uint64{}, 500_001, 3)
 }
 
-// Tail appends n seeded random blocks (filled in later).
-func (g *Gen) Tail(n int) {
-	for k := 0; k < n; k++ {
-		g.next(6)
-	}
+func liqV2Internal(from sdk.AccAddress, id uint64) sdk.Msg {
+	return liqv2types.NewMsgLiquidateInternalKeeperRequest(from, 0, id)
 }
